@@ -19,7 +19,8 @@ ASSUMPTIONS = ["each Parameter constructs on its own (its own declared/default `
                "lo <= hi for declared bounds"]
 ATTRS = ['default', 'bounds', 'allow_None', 'instantiate', 'constant', 'doc', 'precedence', 'label']
 TYPE_DEFAULTS = dict(default=0, bounds=None, allow_None=False, instantiate=False, constant=False, doc=None, precedence=None, label=None)
-SHAPES = ['A>B', 'A>M>B', 'diamond A>(L,R)>J', 'B(G, A) with G declaring a more general type']
+SHAPES = ['A>B', 'A>M>B', 'diamond A>(L,R)>J', 'B(G, A) with G declaring a more general type',
+          'A>M>B with A: Parameter(None), M: Integer(None, allow_None=True)']
 TCS = ['same type', 'Number>Integer', 'Parameter(default=None)>Integer']
 ROUTES = ['class statement', 'add_parameter']
 
@@ -92,7 +93,12 @@ def prog(shape: int, tc: int, route: int, nattr: int, s2inc: bool, inc_lo2: bool
         okA = False
     check('C11.base_creates', okA, {'k1': repr(k1)})
     levels = [k2]            # nearest first
-    if shape == 3:
+    if shape == 4:
+        class M(A):
+            x = param.Integer(default=None, allow_None=True)
+        Base = (M,)
+        levels.append({'default': None, 'allow_None': True})      # what M itself specifies; the rest is held from A
+    elif shape == 3:
         class G(param.Parameterized):
             x = param.Parameter(default=None) if tc == 2 else param.Number(default=1)
         Base = (G, A)
@@ -120,7 +126,7 @@ def prog(shape: int, tc: int, route: int, nattr: int, s2inc: bool, inc_lo2: bool
     merged = {}
     for a in ATTRS:
         merged[a] = TYPE_DEFAULTS[a]
-        if a == 'default' and shape != 3:
+        if a == 'default' and shape not in (3, 4):
             merged[a] = [0, 0.0, None][tc]      # the value held by the root-most declaring class is its own type's default
         for lv in levels:
             if a in lv:
@@ -143,7 +149,7 @@ def prog(shape: int, tc: int, route: int, nattr: int, s2inc: bool, inc_lo2: bool
     own_allow_none = k2.get('allow_None', False) or ('default' in k2 and k2['default'] is None)
     if d is None:
         # a merged default of None is re-checked only if the Parameter type changed along the way
-        bad = (tc != 0 or shape == 3) and not own_allow_none
+        bad = (tc != 0 or shape in (3, 4)) and not own_allow_none
         check('C11.none_default_on_type_change', okB == (not bad), dict(info, created=okB))
     else:
         isint = isinstance(d, int) and not isinstance(d, float)
@@ -165,7 +171,7 @@ def shards(tier):
     out = []
     q = tier == 'quick'
     nattr = 4 if q else 8
-    for shape in range(4):
+    for shape in range(5):
         for tc in range(3):
             for route in range(2):
                 if q and route == 1 and shape != 0:
@@ -175,6 +181,8 @@ def shards(tier):
                 for s2d in (False, True):
                     for s2b in (False, True):
                         if shape == 3 and (tc == 1 or route == 1):
+                            continue
+                        if shape == 4 and (tc != 2 or route == 1):
                             continue
                         c = dict(shape=shape, tc=tc, route=route, nattr=nattr, s2d=s2d, s2b=s2b)
                         if q and not (shape == 0 and tc == 0):
